@@ -291,7 +291,16 @@ def pattern_raw_data(repo: Repo, rep, P: str):
             ret = st.value
     ok = False
     detail = ""
+    if ret is not None:
+        ret = packed.resolve_names(ret, packed.single_defs(g))         # cells = chain.from_iterable(self.data); join(… for note in cells)
+    flat_rows = ("chain.from_iterable(self.data)", "itertools.chain.from_iterable(self.data)", "chain(*self.data)", "itertools.chain(*self.data)",
+                 "chain.from_iterable(self._data)", "chain(*self._data)")
     if isinstance(ret, ast.Call) and isinstance(ret.func, ast.Attribute) and ret.func.attr == "join" and len(ret.args) == 1 \
+            and isinstance(ret.args[0], (ast.GeneratorExp, ast.ListComp)) and len(ret.args[0].generators) == 1 \
+            and norm(ret.args[0].generators[0].iter) in flat_rows and not ret.args[0].generators[0].ifs \
+            and norm(ret.args[0].elt) == f"{norm(ret.args[0].generators[0].target)}.raw_data":
+        ok = True           # the rows chained in order, each cell's bytes in turn
+    elif isinstance(ret, ast.Call) and isinstance(ret.func, ast.Attribute) and ret.func.attr == "join" and len(ret.args) == 1 \
             and isinstance(ret.args[0], (ast.GeneratorExp, ast.ListComp)) and len(ret.args[0].generators) == 2:
         # b"".join(cell.raw_data for line in self.data for cell in line): rows in order, cells in order
         g1, g2 = ret.args[0].generators
